@@ -53,13 +53,14 @@ NestedCtx == {"nested_now", "nested_after", "nested_never"}
 StoreLike == {"rebind", "aug", "fortarget", "withas", "walrus", "delete",    \* ast.Name in Store/Del context
               "import_as", "match_capture"}                                   \* binding forms WITHOUT an ast.Name node: import .. as, match capture
 LoadLike  == {"handover", "contains", "item_set", "item_del",                \* ast.Name in Load context (not as * / ** of a call)
+              "handover_expr",                                                \* handed over inside a display / conditional: H([kwargs])
               "default_capture"}                                              \* captured as a default value of a nested lambda / def
 Method    == {"method", "method_ro"}                                          \* attribute call on the star: kwargs.pop(..) / kwargs.get(..)
 (* forms that exist for each star *)
-HowTop(tgt)    == IF tgt = "A" THEN {"rebind", "aug", "fortarget", "withas", "walrus", "handover", "method_ro", "import_as", "match_capture", "default_capture"}
+HowTop(tgt)    == IF tgt = "A" THEN {"rebind", "aug", "fortarget", "withas", "walrus", "handover", "handover_expr", "method_ro", "import_as", "match_capture", "default_capture"}
                   ELSE StoreLike \cup LoadLike \cup Method
-HowNested(tgt) == IF tgt = "A" THEN {"nonlocal", "handover", "method_ro"}
-                  ELSE {"nonlocal", "handover", "contains", "item_set", "item_del", "method", "method_ro"}
+HowNested(tgt) == IF tgt = "A" THEN {"nonlocal", "handover", "handover_expr", "method_ro"}
+                  ELSE {"nonlocal", "handover", "handover_expr", "contains", "item_set", "item_del", "method", "method_ro"}
 
 S(k, ctx, sa, sk, tgt, how) == [k |-> k, ctx |-> ctx, sa |-> sa, sk |-> sk, tgt |-> tgt, how |-> how, arg |-> "-"]
 (* a forwarding call may carry, as its FIRST positional argument, an expression that itself touches **kwargs: arguments are       *)
@@ -78,7 +79,7 @@ Stmts == {s \in FwdStmts \cup TaintStmts : WellFormed(s)} \cup {Decoy}
 (* handed to other code, rebound through nonlocal); *args is a tuple: handing it over or calling a method cannot change it *)
 RtChanges(tgt, how) ==
   IF tgt = "A" THEN how \in (StoreLike \ {"aug"}) \cup {"nonlocal"}     \* `args += ()` yields the very same tuple object: no change
-  ELSE how \in StoreLike \cup {"nonlocal", "item_set", "item_del", "method", "handover", "default_capture"}
+  ELSE how \in StoreLike \cup {"nonlocal", "item_set", "item_del", "method", "handover", "handover_expr", "default_capture"}
 
 (* ------------------------------------------------------------------ state *)
 St0 == [mA |-> "arg", mK |-> "arg", tA |-> FALSE, tK |-> FALSE, calls |-> <<>>, deferred |-> <<>>,
